@@ -354,7 +354,8 @@ func TestAReplay(t *testing.T) {
 var rejects = map[string][]string{
 	"etag": {`abc`, `"abc`, `abc"`, `W/"abc"`, `"a", "b"`, ` "a"`, `"a" `, "\"a\nb\"", `"\q"`, `'a'`, "`a`", `""x`, ``, `"`, `"a"b"`, `*`, `"a" "b"`, `w/"a"`, `'"a"'`, "\t\"a\"", `"\x"`, `"\u12"`, `"\400"`},
 	"status": {"HTTP/1.1", "HTTP/1.1 200", "HTTP/1.1 abc OK", "HTTP/1.1\t200\tOK", " HTTP/1.1 200 OK", "HTTP/1.1 +200 OK", "HTTP/1.1 -1 OK", "HTTP/1.1 20 OK", "HTTP/1.1 2000 OK",
-		"HTTP/1.1 0200 OK", "FOO 200 OK", "200 OK", "200 OK OK", "HTTP/1.1  200 OK", "HTTP/1.1 2e2 OK", "HTTP/1.1 0x1f OK", "HTTP/1.1 ２００ OK", "OK", "HTTP/1.1 200.0 OK", "HTTP/1.1 1_0 OK", "http/1.1 -200 OK"},
+		"HTTP/1.1 0200 OK", "FOO 200 OK", "200 OK", "200 OK OK", "HTTP/1.1  200 OK", "HTTP/1.1 2e2 OK", "HTTP/1.1 0x1f OK", "HTTP/1.1 ２００ OK", "OK", "HTTP/1.1 200.0 OK", "HTTP/1.1 1_0 OK", "http/1.1 -200 OK",
+		"HTTP/A 000 ", "HTTP/ 200 OK", "HTTP/1 200 OK", "HTTP/1.x 200 OK", "HTTP/.1 200 OK", "HTTP/1. 200 OK", "HTTP/+1.1 200 OK", "HTTPS/1.1 200 OK", "HTTP/1.1.1 200 OK"},
 	"httpdate": {"2006-01-02T15:04:05Z", "Mon, 02 Jan 2006 15:04:05 +0000", "Mon, 02 Jan 2006 15:04:05 UTC", "Mon, 02 Jan 2006 15:04:05 GMT ", "Mon, 02 Jan 2006 24:00:00 GMT", "",
 		"Mon, 32 Jan 2006 15:04:05 GMT", "0", "now", "Mon, 02 Jan 2006 15:04:05", "02 Jan 2006 15:04:05 GMT", "Mon, 02 Foo 2006 15:04:05 GMT", "Mon, 2 Jan 2006 15:04:05 GMT", "1136214245", " Mon, 02 Jan 2006 15:04:05 GMT", "Mon, 02 Jan 2006 15:04:60 GMT", "Mon, 02 Jan 2006 15:04:05 PST"},
 	"depth":     {"", " 0", "0 ", "00", "2", "-1", "Infinity", "INFINITY", "infinite", "0,1", "1, infinity", "01", "+1", "1.0", "inf", "∞", "0\t", "true"},
